@@ -18,7 +18,7 @@ def funcs : List (String × String) := [
   ("framework/address/split.go:Split", "2149bd8e40fd6735"),
   ("framework/address/split.go:UnquoteMbox", "1af0b63a82816d66"),
   ("framework/address/validation.go:Valid", "178bb36a9de42c64"),
-  ("framework/address/validation.go:ValidDomain", "777ecf3120b61fb5"),
+  ("framework/address/validation.go:ValidDomain", "ea1468015123840b"),
   ("framework/address/validation.go:ValidMailboxName", "98e86c66ed0a4ead"),
   ("framework/dns/idna.go:SelectIDNA", "0e2c178b1a0de365"),
   ("framework/dns/idna.go:ToUnicode", "7a4171a12e750641"),
